@@ -22,7 +22,8 @@ TEXT = {
     "C03": dict(ref="DESIGN.md 4 C03", technique="TLC model checking + TLC-generated scenarios replayed on the router + TLC trace validation",
                 level=TL + "For C03 the projection is REGISTERED/UNREGISTERED/INVOCATION/ERROR(REGISTER, UNREGISTER) and the replies; the "
                 "registration chosen, the callee and the invocation id are bound to the logged values and must be a best match, an eligible "
-                "callee under the policy (round-robin = cyclic successor while membership is unchanged) and fresh.",
+                "callee under the policy (round-robin = cyclic successor while membership is unchanged) and fresh; leg 1 also runs with progressive call invocations (MC kind pci: "
+                "first, further and final chunks, chunks after UNREGISTER or naming another procedure; C03_Chunks: same callee, invocation id and registration).",
                 note=NOTE + "Random policy is checked for membership only."),
     "C05": dict(ref="DESIGN.md 4 C05", technique="TLC model checking + crash-point scenarios replayed on the router + TLC trace validation with table snapshot",
                 level=TL + "For C05 every scenario ends with all sessions leaving in the three client-visible ways, a two hour advance of the virtual "
